@@ -45,6 +45,8 @@ W = [
  ("fix: P32E2 mul_add keeps the bit shifted out", "C05", "P32E2 0x2778b72d.mul_add(0x202fb0a5,0x47f02b0f)=0x48000000 want 0x48000001 (exact value 2+2^-27+2^-62: the last bit of the 64-bit working sum, shifted out by the carry, was not sticky; ~2^-60 of all triples; reported by two mutant-writing sub-agents, not reached by the monitors until the constructed rounding-trap generator was added)"),
  ("fix: PxE2 mul_add keeps the bit shifted out", "C13", "PxE2<32> 0x20000129.mul_add(0x251e2b19,0x47f2e1d4)=0x48000000 want 0x48000001 (same omission as P32E2 mul_add)"),
  ("fix: P32E2::powf returned 1 for powf(NaR, 0)", "C15", "P32E2::powf(NaR, 0)=0x40000000 and powf(1, NaR)=0x40000000, want NaR (the y == 0 / x == 1 shortcut ran before the NaR test); the monitor had exempted these two cases as an IEEE convention until two auditing sub-agents pointed at the statement's wording"),
+ ("fix: num_traits::Float::epsilon() did not return EPSILON", "C17", "<P as Float>::epsilon() = 0x01 / 0x0006 / 0x01400000 for P8E0 / P16E1 / P32E2, the EPSILON constants are 0x02 / 0x0100 / 0x00a00000 (provided default not overridden; pointed out by an auditing sub-agent, the C17 table had no entry for it)"),
+ ("fix: FloatConst::LOG2_10() and LOG10_2() were not forwarded", "C17", "<P32E2 as FloatConst>::LOG2_10() = 0x4d49a786, MathConsts::LOG2_10 = 0x4d49a785 (also P16E1 0x5a94 vs 0x5a93, P8E0 0x6a vs 0x6b; LOG10_2 P8E0 0x14 vs 0x13): provided defaults LN_10/LN_2, LN_2/LN_10 in posit arithmetic"),
  ("fix: P32E2::exp, exp2 and exp10 returned 0 for NaR", "C15", "P32E2::exp(NaR)=0, exp2(NaR)=0 (NaR orders below the underflow threshold)"),
  ("fix: PxE1::from_pxe2 added the raw", "C14", "PxE1<3>::from_pxe2(PxE2<6> 0x13)=0x40000000 want 0x60000000"),
 ]
